@@ -433,6 +433,10 @@ impl Lowerer<'_, '_> {
                 })
                 .collect();
 
+            // The switch above jumps to this block for every variant, so
+            // it has to exist for an uninhabited one as well.
+            self.new_block(variant_lbl);
+
             let Some(layouts) = variant
                 .1
                 .iter()
@@ -449,7 +453,6 @@ impl Lowerer<'_, '_> {
                 continue;
             };
 
-            self.new_block(variant_lbl);
             self.emit_jump(lbls[0]);
 
             let mut builder = LayoutBuilder::new();
